@@ -223,12 +223,6 @@ class CallableTypeHint(TypeHint):
 
     # ..................{ PROPERTIES ~ bools                 }..................
     @property
-    def is_ignorable(self) -> bool:
-        # Callable[..., Any] (or just `Callable`)
-        return self.is_params_ignorable and self.is_return_ignorable
-
-
-    @property
     def is_params_ignorable(self) -> bool:
         # Callable[..., ???]
         return self._args[0] is Ellipsis
